@@ -92,6 +92,10 @@ def parseEntry (j : Json) : DirEntry :=
       | .ok (.obj o) => some (parseService (.obj o))
       | _ => none }
 
+def parseCredIx (j : Json) : CredIx :=
+  { id := jStr j "id", issuer := jStr j "issuer", type := optStr j "type", subjectId := jStr j "subjectId",
+    props := (jArr j "props").map fun p => (jStr p "p", jStr p "v") }
+
 def parseFwd (j : Json) : Fwd := { header := optStr j "header", headerHost := optStr j "host" }
 
 def kindStr : Option ErrKind → String
@@ -183,6 +187,22 @@ def step' (st : St) (j : Json) : St × List String :=
       | .cycle => "cycle"
       | .inconsistent => "inconsistent"
     (st, [s!"nreg {out} k={kindStr (o.kind Nuts.Facts.C16.verifyReturns Nuts.Facts.C16.registerExistsJoined)}{nlists st}"])
+  | "nsearchq" =>
+    let st := ntick st j
+    let index := (jArr j "index").map fun e => (jStr e "pid", (jArr e "creds").map parseCredIx)
+    let ix : Row → List CredIx := fun r => match index.find? (fun p => p.1 == r.id) with
+      | some p => p.2
+      | none => []
+    let q := (jArr j "query").map fun t => (jStr t "k", jStr t "v")
+    let line := match st.nw.n.searchQ (jStr j "sid") st.nw.t ix Nuts.Facts.C16.queryColumns (jBool j "ci") q with
+      | none => "not-found"
+      | some rows => "[" ++ String.intercalate " " (sortStrs (rows.map (·.id))) ++ "]"
+    (st, ["nsearchq " ++ line])
+  | "nrestart" =>
+    let st := ntick st j
+    let (w', _) := nstep st.nw .restart
+    let st := { st with nw := w' }
+    (st, [s!"nrestart ok{nlists st}"])
   | "nget" =>
     let st := ntick st j
     let ts : Option Int := match (j.getObjVal? "ts") with
